@@ -155,6 +155,9 @@ func PReachRet(start *ssa.BasicBlock, env PEnv, stop func(*ssa.BasicBlock) bool)
 		// resolve to's phis from the edge
 		nphi := map[ssa.Value]constant.Value{}
 		for k, v := range from.phi {
+			if ph, ok := k.(*ssa.Phi); ok && !ph.Block().Dominates(to) {
+				continue // not usable in (or after) the target block: forget it
+			}
 			nphi[k] = v
 		}
 		full := PEnv{}
@@ -301,6 +304,9 @@ func PWalk[A comparable](start *ssa.BasicBlock, env PEnv, init A, stop func(*ssa
 		for _, to := range next {
 			nphi := map[ssa.Value]constant.Value{}
 			for k, v := range s.st.phi {
+				if ph, ok := k.(*ssa.Phi); ok && !ph.Block().Dominates(to) {
+					continue
+				}
 				nphi[k] = v
 			}
 			pi := -1
